@@ -177,24 +177,40 @@ package implements
 //@   loop 2 invariant forall k int :: 0 <= k && k < $i && !annotations[k].PackageNotFound && !haveIface(interfaces, annotations[k]) ==> (exists j int :: 0 <= j && j < len(result) && mi02(result[j], annotations[k]))
 
 // the loaders: read-only; every model is a fresh object; type models have one method per name
+// IMPL02: a package declares interface n if n is a name of its scope that denotes a type whose underlying type is an interface
+//@ macro func declaresIface(pkg *types.Package, n string) bool = contains(pkg.Scope().Names(), n) && pkg.Scope().Lookup(n) != nil && typeis(pkg.Scope().Lookup(n), *types.TypeName) && typeis(pkg.Scope().Lookup(n).Type().Underlying(), *types.Interface)
+//@ pure func hasIfaceModel(l []*InterfaceModel, p string, n string) bool = exists k int :: 0 <= k && k < len(l) && l[k].Package == p && l[k].Name == n
 //@ func findInterfacesInPackage
-//@   props C10
+//@   props C05 C10
 //@   requires pkg != nil
 //@   assigns nothing
-//@   ensures forall k int :: 0 <= k && k < len(result) ==> result[k] != nil && fresh(result[k])
+//@   ensures forall k int :: 0 <= k && k < len(result) ==> result[k] != nil && fresh(result[k]) && result[k].Package == pkg.Path()
+//@   ensures forall n string :: hasIfaceModel(result, pkg.Path(), n) <==> (targetInterfaces[n] && declaresIface(pkg, n))
 //@   loop 1 frame
-//@   loop 1 invariant forall k int :: 0 <= k && k < len(result) ==> result[k] != nil && fresh(result[k])
+//@   loop 1 invariant forall k int :: 0 <= k && k < len(result) ==> result[k] != nil && fresh(result[k]) && result[k].Package == pkg.Path()
+//@   loop 1 invariant forall n string :: hasIfaceModel(result, pkg.Path(), n) <==> (targetInterfaces[n] && pkg.Scope().Lookup(n) != nil && typeis(pkg.Scope().Lookup(n), *types.TypeName) && typeis(pkg.Scope().Lookup(n).Type().Underlying(), *types.Interface) && (exists j int :: 0 <= j && j < $i && $seq[j] == n))
+// the package path a query refers to ("" = the package being analysed)
+//@ macro func qPath(pass *analysis.Pass, q annotations.InterfaceQuery) string = q.PackageName == "" ? pass.Pkg.Path() : q.PackageName
+//@ macro func queried(pass *analysis.Pass, qs []annotations.InterfaceQuery, m int, p string, n string) bool = exists q int :: 0 <= q && q < m && q < len(qs) && qPath(pass, qs[q]) == p && qs[q].InterfaceName == n
+//@ macro func scanned(pass *analysis.Pass, pkg *types.Package) bool = pkg != nil && (pkg == pass.Pkg || contains(pass.Pkg.Imports(), pkg))
+// IMPL02: a model (p, n) is loaded exactly if some annotation asks for interface n of package path p and the analysed
+// package or one of its direct imports has that path and declares such an interface
 //@ func LoadInterfaces
-//@   props C10
+//@   props C05 C10
 //@   requires pass.Pkg != nil
 //@   assigns nothing
 //@   ensures forall k int :: 0 <= k && k < len(result) ==> result[k] != nil && fresh(result[k])
+//@   ensures forall p string, n string :: hasIfaceModel(result, p, n) <==> (queried(pass, queries, len(queries), p, n) && (exists pkg *types.Package :: scanned(pass, pkg) && pkg.Path() == p && declaresIface(pkg, n)))
 //@   loop 1 frame
 //@   loop 2 frame
 //@   loop 3 frame
-//@   loop 1 invariant pkgToInterface != nil && fresh(pkgToInterface) && (forall p string :: indom(pkgToInterface, p) && pkgToInterface[p] != nil ==> fresh(pkgToInterface[p]))
-//@   loop 2 invariant forall k int :: 0 <= k && k < len(packagesToScan) ==> packagesToScan[k] != nil
+//@   loop 1 invariant pkgToInterface != nil && fresh(pkgToInterface) && tmWF(pkgToInterface) && (forall p string :: indom(pkgToInterface, p) ==> fresh(pkgToInterface[p]))
+//@   loop 1 invariant forall p string, n string :: tmHas(pkgToInterface, p, n) <==> queried(pass, queries, $i, p, n)
+//@   loop 2 invariant forall k int :: 0 <= k && k < len(packagesToScan) ==> scanned(pass, packagesToScan[k]) && indom(pkgToInterface, packagesToScan[k].Path())
+//@   loop 2 invariant indom(pkgToInterface, pass.Pkg.Path()) ==> contains(packagesToScan, pass.Pkg)
+//@   loop 2 invariant forall j int :: 0 <= j && j < $i && indom(pkgToInterface, $seq[j].Path()) ==> contains(packagesToScan, $seq[j])
 //@   loop 3 invariant forall k int :: 0 <= k && k < len(result) ==> result[k] != nil && fresh(result[k])
+//@   loop 3 invariant forall p string, n string :: hasIfaceModel(result, p, n) <==> (exists k int :: 0 <= k && k < $i && packagesToScan[k].Path() == p && tmHas(pkgToInterface, p, n) && declaresIface(packagesToScan[k], n))
 //@ func findTypesInPackage
 //@   props C10
 //@   requires pkg != nil
